@@ -992,7 +992,7 @@ def _main():
     from . import build, run
     tier = sys.argv[1] if len(sys.argv) > 1 else "quick"
     rng = random.Random(int(os.environ.get("VERIF_SEED", "20260926")))
-    model_bin = os.path.join(build.LEAN, ".lake", "build", "bin", "model")
+    model_bin = build.model_bin()
     impl_bin = os.path.join(build.HARNESS, "target", "debug", "impl")
     work = os.path.join(build.ROOT, ".work", "c11")
     os.makedirs(work, exist_ok=True)
